@@ -200,7 +200,9 @@ static void run_e2e_case(Rng &r)
         switch(k) {
             case 0: rtosc_message(buf, sizeof buf, "/vol", "i", (int)r.range(-150, 150)); break;
             case 1: rtosc_message(buf, sizeof buf, "/pan", "c", (int)r.range(0, 127)); break;
-            case 2: rtosc_message(buf, sizeof buf, "/mode", "i", (int)r.range(0, 3)); break;
+            case 2: if(r.chance(0.5)) rtosc_message(buf, sizeof buf, "/mode", "i", (int)r.range(0, 3));
+                    else { static const char *SYM[] = {"a", "b", "c", "d"}; rtosc_message(buf, sizeof buf, "/mode", r.chance(0.5) ? "S" : "s", SYM[r.below(4)]); count("e2e.option_set_by_symbol"); }   // the same port through its symbolic entry
+                    break;
             case 3: rtosc_message(buf, sizeof buf, fmt("/arr%d", (int)r.below(4)).c_str(), "i", (int)r.range(0, 100)); break;
             case 4: rtosc_message(buf, sizeof buf, "/cut", "f", (float)r.range(-40, 40) / 4); break;
             default: g_now += (time_t)r.below(4); hist += " +t"; continue;
